@@ -546,23 +546,66 @@ theorem fixed_getcode_full_false : ¬ fixed_getcode_injective_full := by
     (by decide +kernel) (by decide +kernel)
   simp at this
 
-/-- what does hold for `GetCode`: the code determines the CID -/
+/-- fix 6288f11 (D28): the code `GetCode` reports is the code the CMap has for that CID, and
+    the CID is one the encoder holds a width for -/
+theorem fixed_getcode_in_cmap (f : FixedEnc) (cid : Nat) (text : Bytes) (c : Nat)
+    (h : f.getCode cid text = some c) : f.all cid = some c ∧ ∃ w, f.width.get cid = some w := by
+  unfold FixedEnc.getCode at h
+  split at h
+  · simp at h
+  · rename_i w hw; exact ⟨h, w, hw⟩
+
+/-- a CID without a code in the CMap is never reported as encodable — whatever widths are stored -/
+theorem fixed_getcode_unmapped (f : FixedEnc) (cid : Nat) (text : Bytes) (h : f.all cid = none) :
+    f.getCode cid text = none := by
+  unfold FixedEnc.getCode; split <;> simp [h]
+
+/-- **`GetCode` for CID 0** (the case of D28): for a CMap in which no code maps to CID 0, the
+encoder made by `NewFromCMap` — whose width table has CID 0 from the start — answers "no code" for
+the notdef glyph, for every text; before the fix it answered code 0. -/
+theorem fixed_getcode_notdef (csr : CSR) (pairs : List (Nat × Nat)) (w0 : Int) (text : Bytes)
+    (h : ∀ p ∈ pairs, p.2 ≠ 0) : (FixedEnc.ofPairs csr pairs w0).getCode 0 text = none := by
+  apply fixed_getcode_unmapped
+  simp only [FixedEnc.ofPairs, Option.map_eq_none_iff, List.find?_eq_none]
+  intro p hp
+  have := h p (List.mem_reverse.mp hp)
+  simpa using this
+
+/-- and when some code does map to CID 0, `GetCode(0, ·)` is that code from the start -/
+theorem identity_getcode_notdef (w : Int) (text : Bytes) :
+    (FixedEnc.identity w).getCode 0 text = some 0 := by
+  simp [FixedEnc.getCode, FixedEnc.identity, Map.get_cons, identityCode]
+
+/-- what holds for `GetCode` in general: the code determines the CID (any injective CMap, any
+    state of the width and text tables) -/
 theorem fixed_getcode_cid_partial (f : FixedEnc) (hinj : CMapInjective f)
-    (hall : ∀ cid w, f.width.get cid = some w → ∃ c, f.all cid = some c)
     (k1 k2 : Key) (c : Nat) (h1 : f.getCode k1.1 k1.2 = some c) (h2 : f.getCode k2.1 k2.2 = some c) :
-    k1.1 = k2.1 := by
-  unfold FixedEnc.getCode at h1 h2
-  split at h1
-  · simp at h1
-  · rename_i w1 hw1
-    split at h2
-    · simp at h2
-    · rename_i w2 hw2
-      obtain ⟨c1, hc1⟩ := hall _ _ hw1
-      obtain ⟨c2, hc2⟩ := hall _ _ hw2
-      simp [hc1] at h1; simp [hc2] at h2
-      subst h1; subst h2
-      exact hinj _ _ _ hc1 hc2
+    k1.1 = k2.1 :=
+  hinj _ _ _ (fixed_getcode_in_cmap f _ _ c h1).1 (fixed_getcode_in_cmap f _ _ c h2).1
+
+theorem flater_frame {f0 f : FixedEnc} (h : FLater f0 f) : f.all = f0.all ∧ f.rev = f0.rev := by
+  induction h with
+  | refl => exact ⟨rfl, rfl⟩
+  | step g cid text width _ ih =>
+    obtain ⟨ha, hr, _⟩ := fixed_encode_frame g cid text width
+    exact ⟨by rw [ha]; exact ih.1, by rw [hr]; exact ih.2⟩
+
+/-- Identity-H/V: the code `GetCode` reports decodes back to the CID it was asked for, after any
+    history -/
+theorem identity_getcode_roundtrip (w : Int) (f : FixedEnc) (h : FLater (FixedEnc.identity w) f)
+    (cid : Nat) (text : Bytes) (c : Nat) (hg : f.getCode cid text = some c) : f.rev c = some cid := by
+  have hframe := flater_frame h
+  have ha := (fixed_getcode_in_cmap f cid text c hg).1
+  rw [hframe.1] at ha
+  rw [hframe.2]
+  simp only [FixedEnc.identity] at ha ⊢
+  split at ha
+  · rename_i hlt
+    simp at ha; subst ha
+    have h1 : identityCode cid < 65536 := by unfold identityCode; omega
+    have h2 : identityCode (identityCode cid) = cid := by unfold identityCode; omega
+    simp [h1, h2]
+  · simp at ha
 
 /-! ### two-byte codes read back -/
 
